@@ -2,7 +2,9 @@
 (* Layer A of the interactive password paths (see Prompt.tla): the outcome as a function of the typed script. *)
 EXTENDS Naturals, Sequences
 
-Words == {"good", "x", "y"}          \* "good" is the right (old) password; x, y are other strings
+\* "good" is the right (old) password; x, y are other strings; "xp" is x with one more character typed, "e" is the empty
+\* line (Enter alone).  Two entries are the same password only if they are the same word - being a prefix is not enough.
+Words == {"good", "x", "y", "xp", "e"}
 PCmds  == {"pass_encrypt", "decrypt", "encrypt", "change_pass"}
 
 \* ---------- Layer A ----------
